@@ -55,6 +55,12 @@ def scalar_api_replay(chk, op, nargs, spec, key):
     ops, meta = [], []
     names = ["a", "b", "c"][:nargs]
     pairs = ptreplay.montgomery_pairs(400) if nargs >= 2 else []
+    # raw Montgomery values whose square has all-ones / zero words (squarings inside Invert, x*x)
+    sq = ptreplay.montgomery_sqrt_structured(chk.seed, 200)
+    if nargs >= 2:
+        pairs = pairs + [(a_, a_) for a_ in sq]
+    elif op == "Invert":
+        specials = [a_ * Rinv_ % L for a_ in sq] + specials
     edge = [0, 1, L - 1, 2, L - 2, 2**252, (L - 1) // 2, (L + 1) // 2]
     combos = list(itertools.product(edge[:4] if nargs == 3 else edge, repeat=nargs))
     for t in range(200 + len(pairs)):
@@ -200,7 +206,16 @@ def k_invert(base, chk):
     s_ = X.Ptr(ex.new_obj(path, ST, init=[absmodes.Abs(z3.Int("junk"))]))
     t0 = time.time()
     for pname, args in (("distinct", [s_, t_]), ("s=t", [t_, t_])):
-        (p,) = ex.call(fname, list(args), path.clone())
+        ps_ = ex.call(fname, list(args), path.clone())
+        if len(ps_) != 1 or ps_[0].outcome[0] != "ret" or not isinstance(ex.load(ps_[0], X.Ptr(args[0].obj, (0,))), absmodes.Abs):
+            # the body is not (only) a chain of fiatScalarMul calls: undecided here, settled by the native replay
+            ob = chk.add(Ob("Scalar.Invert[%s]: the body is an addition chain of fiatScalarMul calls (followed in chain mode)" % pname, "sat", time.time() - t0, [fname], "chain", detail=str([q_.outcome for q_ in ps_][:1])))
+            hit = scalar_api_replay(chk, "Invert", 1, lambda a: pow(a, L - 2, L), "Invert")
+            ob.verdict = "violated" if hit else "sat-unreplayed"
+            if hit:
+                chk.violation("Scalar.Invert", hit["what"], hit)
+            continue
+        p = ps_[0]
         res = ex.load(p, X.Ptr(args[0].obj, (0,))).v
         s = z3.Solver()
         s.add(res != (L - 2) * e)
